@@ -10,6 +10,7 @@ onnxruntime on the model built around inline(m) on random inputs; bytes of m bef
 from __future__ import annotations
 
 import collections
+import warnings
 import json
 
 import numpy as np
@@ -160,29 +161,46 @@ def type_cases(run, models):
                     hist["other"] += 1
                     run.fail("impl", "C08/bind-wrong-exception", f"an argument of the wrong type raised {type(e).__name__} instead of TypeError",
                              {"tag": tag, "input": victim.name, "variant": what})
-        # the declared types themselves: accepted, and the results carry exactly the declared output types
-        args = {k: B.argument(B.Tensor(*good[k])) for k in good}
-        n += 1
-        try:
-            res = B.inline(m)(**args)
-        except Exception as e:  # noqa: BLE001
-            run.fail("impl", f"C08/call-rejected/{tag}", f"inline({tag})(arguments of the declared types) raised {type(e).__name__}: {str(e)[:120]}", {"tag": tag})
+        # the declared types themselves: accepted, and the results carry exactly the declared output types - also when one of the
+        # arguments has NO type at all (the result of a custom operator without an inference hook): the output types are m's declaration
+        for untyped in (None,) + tuple(good)[:2]:
+          args = {k: (B.argument(B.Tensor(*good[k])) if k != untyped else _untyped_var(B.argument(B.Tensor(*good[k])))) for k in good}
+          n += 1
+          try:
+            with warnings.catch_warnings():
+                warnings.simplefilter("ignore")
+                res = B.inline(m)(**args)
+          except Exception as e:  # noqa: BLE001
+            run.fail("impl", f"C08/call-rejected/{tag}", f"inline({tag})(arguments of the declared types{', one of them untyped' if untyped else ''}) raised "
+                     f"{type(e).__name__}: {str(e)[:120]}", {"tag": tag, "untyped_argument": untyped})
             continue
+          _check_declared(run, hist, tag, m, res, untyped)
+    return n, dict(hist)
+
+
+def _untyped_var(x):
+    """A Var without a type: the output of a custom operator that has no type-inference hook."""
+    from harness import opaque_node
+    return opaque_node.untyped(x)
+
+
+def _check_declared(run, hist, tag, m, res, untyped):
+    if True:
         for o, v in zip(m.graph.output, res.values()):
             if not o.type.HasField("tensor_type"):
                 continue
             ddt, dshape = declared_simple(o.type)
             # inline() documents that symbolic dimensions of m's inputs and outputs are stripped: a named dimension is carried as unknown
             dshape = tuple(d if isinstance(d, int) else None for d in dshape) if dshape is not None else None
-            t = v.unwrap_tensor()
-            if np.dtype(t.dtype) != ddt or (tuple(t.shape) if t.shape is not None else None) != dshape:
+            t = v.unwrap_tensor() if v.type is not None else None
+            if t is None or np.dtype(t.dtype) != ddt or (tuple(t.shape) if t.shape is not None else None) != dshape:
                 hist["output-type-differs"] += 1
                 run.fail("impl", "C08/output-types", f"inline({tag}): output {o.name!r} is declared {ddt}{list(dshape) if dshape is not None else '[...]'} "
-                         f"but the returned Var has type {v.type}", {"tag": tag, "output": o.name})
+                         f"but the returned Var has type {v.type}" + (f" (argument {untyped!r} untyped)" if untyped else ""),
+                         {"tag": tag, "output": o.name, "untyped_argument": untyped})
                 break
         else:
-            hist["declared-types-carried"] += 1
-    return n, dict(hist)
+            hist["declared-types-carried" + ("/untyped-argument" if untyped else "")] += 1
 
 
 def rand_value(nprng, dt, shape):
